@@ -75,6 +75,22 @@ pub fn mk_world(shape_idx: &[usize], layout: &[usize], deleted: &[String]) -> Wo
   w
 }
 
+/// World over explicit documents (ids are assigned by position).
+pub fn world_from_docs(docs: &[Value], layout: &[usize], deleted: &[String]) -> World {
+  let docs: Vec<Value> = docs
+    .iter()
+    .enumerate()
+    .map(|(i, d)| {
+      let mut d = d.clone();
+      d["_id"] = json!(id_of(i));
+      d
+    })
+    .collect();
+  let mut w = World::new("aggs", agg_schema(), docs).with_layout(layout.to_vec());
+  w.deleted = deleted.to_vec();
+  w
+}
+
 /// A top-level query of the alphabet.
 #[derive(Clone, Debug)]
 pub struct QSpec {
@@ -1411,10 +1427,18 @@ struct Seen {
 }
 
 fn check_corpus(shape_idx: &[usize], queries: &[QSpec], tmpls: &[SearchRequest], cases: &[AggCase], parsed: &BTreeMap<String, Aggregation>) -> CorpusOut {
+  let sh = shapes();
+  let docs: Vec<Value> = shape_idx.iter().map(|s| sh[*s].clone()).collect();
+  check_docs(&docs, layout_groups(docs.len()), queries, tmpls, cases, parsed)
+}
+
+/// Check one document list under groups of (deleted ids, layouts); the first layout of a group is
+/// the reference of the layout-equality oracle (single segment).
+fn check_docs(doc_list: &[Value], groups: Vec<(Vec<String>, Vec<Vec<usize>>)>, queries: &[QSpec], tmpls: &[SearchRequest], cases: &[AggCase], parsed: &BTreeMap<String, Aggregation>) -> CorpusOut {
   let mut out = CorpusOut::default();
-  let n = shape_idx.len();
+  let n = doc_list.len();
   let uses_score: Vec<bool> = cases.iter().map(|c| tree_has(&c.agg, &|a| a["type"] == "top_hits")).collect();
-  for (deleted, layouts) in layout_groups(n) {
+  for (deleted, layouts) in groups {
     // per (query, agg): did the base layout pass, and its canonical response (scores masked when
     // they legitimately depend on per-segment statistics)
     let mut base_pass: Vec<Vec<Option<bool>>> = vec![vec![None; cases.len()]; queries.len()];
@@ -1426,7 +1450,7 @@ fn check_corpus(shape_idx: &[usize], queries: &[QSpec], tmpls: &[SearchRequest],
     let mut sets: Vec<Vec<Option<Result<Value, String>>>> = Vec::new();
     for (li, layout) in layouts.iter().enumerate() {
       let t0 = std::time::Instant::now();
-      let world = mk_world(shape_idx, layout, &deleted);
+      let world = world_from_docs(doc_list, layout, &deleted);
       let idx = world.build();
       let reader = match idx.reader() {
         Ok(r) => r,
@@ -1579,6 +1603,80 @@ fn check_corpus(shape_idx: &[usize], queries: &[QSpec], tmpls: &[SearchRequest],
   out
 }
 
+// ---------------------------------------------------------------------------------------------
+// Gap family: segments whose histogram bucket lists have the same length and the same end keys
+// but different interior keys (e.g. {0,10,30} vs {0,20,30}).
+
+const GAP_F: [f64; 6] = [0.5, 1.5, 2.5, 3.5, 4.5, 5.5];
+const GAP_N: [i64; 6] = [1, 12, 25, 35, 48, 53];
+
+fn gap_doc(g: usize, pos: usize) -> Value {
+  json!({"body": "a", "kw": "x", "kw2": if pos % 2 == 0 { "p" } else { "q" }, "n": GAP_N[g], "f": GAP_F[g], "ts": (g as i64) * 86_400_000})
+}
+
+fn gap_aggs() -> Vec<AggCase> {
+  let mut out = Vec::new();
+  let mut add = |name: &str, agg: Value| out.push(AggCase { name: name.to_string(), agg });
+  let st_n = [("s", json!({"type": "stats", "field": "n"}))];
+  let st_f = [("s", json!({"type": "stats", "field": "f"}))];
+  let hist_f = with_subs(json!({"type": "histogram", "field": "f", "interval": 1.0}), &st_n);
+  let hist_n = with_subs(json!({"type": "histogram", "field": "n", "interval": 10.0}), &st_f);
+  let dh_day = with_subs(json!({"type": "date_histogram", "field": "ts", "calendar_interval": "day", "min_doc_count": 1}), &st_n);
+  let dh_fixed = with_subs(json!({"type": "date_histogram", "field": "ts", "fixed_interval": "1d"}), &st_n);
+  add("gap_hist_f", hist_f.clone());
+  add("gap_hist_n", hist_n.clone());
+  add("gap_hist_n_off_mdc1", with_subs(json!({"type": "histogram", "field": "n", "interval": 10.0, "offset": 5.0, "min_doc_count": 1}), &st_f));
+  add("gap_hist_f_ext", with_subs(json!({"type": "histogram", "field": "f", "interval": 1.0, "min_doc_count": 0, "extended_bounds": {"min": 1.0, "max": 3.9}}), &st_n));
+  add("gap_dh_fixed_1d", dh_fixed.clone());
+  add("gap_dh_fixed_12h", with_subs(json!({"type": "date_histogram", "field": "ts", "fixed_interval": "12h", "min_doc_count": 1}), &[("vc", json!({"type": "value_count", "field": "f"}))]));
+  add("gap_dh_day", dh_day.clone());
+  add("gap_terms>hist_f", with_subs(json!({"type": "terms", "field": "kw"}), &[("in", hist_f.clone())]));
+  add("gap_terms_kw2>hist_n", with_subs(json!({"type": "terms", "field": "kw2"}), &[("in", hist_n.clone())]));
+  add("gap_terms>dh_day", with_subs(json!({"type": "terms", "field": "kw"}), &[("in", dh_day)]));
+  add("gap_terms>dh_fixed", with_subs(json!({"type": "terms", "field": "kw"}), &[("in", dh_fixed)]));
+  add("gap_filter>hist_n", with_subs(json!({"type": "filter", "filter": {"KeywordEq": {"field": "kw", "value": "x"}}}), &[("in", hist_n)]));
+  add("gap_range>hist_f", with_subs(json!({"type": "range", "field": "n", "keyed": false, "ranges": [{"key": "all"}, {"key": "low", "to": 30.5}]}), &[("in", hist_f)]));
+  out
+}
+
+fn k_subsets(n: usize, k: usize) -> Vec<Vec<usize>> {
+  subsets(n, k).into_iter().filter(|s| s.len() == k).collect()
+}
+
+/// (documents, layouts) of the gap family; the first layout is the single-segment reference.
+fn gap_worlds(quick: bool) -> Vec<(Vec<Value>, Vec<Vec<usize>>)> {
+  let mut out = Vec::new();
+  let grid = if quick { 5 } else { 6 };
+  let mut push = |parts: &[&Vec<usize>], layouts: Vec<Vec<usize>>| {
+    let mut docs = Vec::new();
+    for p in parts {
+      for g in p.iter() {
+        docs.push(gap_doc(*g, docs.len()));
+      }
+    }
+    out.push((docs, layouts));
+  };
+  for k in [3usize, 4] {
+    let subs = k_subsets(grid, k);
+    for a in &subs {
+      for b in &subs {
+        push(&[a, b], vec![vec![2 * k], vec![k, k]]);
+      }
+    }
+  }
+  if !quick {
+    let subs = k_subsets(5, 3);
+    for a in &subs {
+      for b in &subs {
+        for c in &subs {
+          push(&[a, b, c], vec![vec![9], vec![3, 3, 3], vec![3, 6], vec![6, 3]]);
+        }
+      }
+    }
+  }
+  out
+}
+
 fn replay_once(cs: &Value) -> Option<String> {
   let world = World::from_json(&cs["world"]);
   let q = QSpec::from_json(&cs["query"]);
@@ -1652,12 +1750,54 @@ pub fn run(ctx: &Ctx) -> i32 {
     all.extend(corpora(8, 4, 4));
     all.extend(corpora(5, 5, max_len));
   }
-  let deadline = if quick { 33.0 } else { 840.0 };
+  let deadline = if quick { 27.0 } else { 840.0 };
   let mut tot = CorpusOut::default();
   let mut by_sig: BTreeMap<String, u64> = BTreeMap::new();
   let mut done = 0usize;
   let mut timed_out = false;
-  for chunk in all.chunks(128) {
+  // gap family first (cheap, must not fall victim to the wall budget); reported after the main
+  // space so that the smallest worlds are reported first
+  let gap_cases = gap_aggs();
+  let gap_parsed = parse_aggs(&gap_cases);
+  let gap_queries = vec![
+    QSpec { name: "match_all", query: json!({"type": "match_all"}), filter: None, const_score: true },
+    QSpec { name: "filter_kw2_p", query: json!({"type": "match_all"}), filter: Some(json!({"KeywordEq": {"field": "kw2", "value": "p"}})), const_score: true },
+  ];
+  let gap_tmpls: Vec<SearchRequest> = gap_queries.iter().map(|q| q.template()).collect();
+  let gap_plan = gap_worlds(quick);
+  let gap_outs: Vec<CorpusOut> = gap_plan.par_iter().map(|(docs, layouts)| check_docs(docs, vec![(vec![], layouts.clone())], &gap_queries, &gap_tmpls, &gap_cases, &gap_parsed)).collect();
+  let gap_worlds_n: u64 = gap_outs.iter().map(|o| o.worlds).sum();
+  let gap_evals: u64 = gap_outs.iter().map(|o| o.evals).sum();
+  let mut absorb = |o: CorpusOut| {
+    // further cases of a class repeat the class's stored witness (a replay file must be usable)
+    let first: Vec<(Option<&'static str>, String, Value)> = o.more.iter().filter_map(|(sig, _)| o.fails.iter().find(|f| f.sig == *sig).map(|f| (*sig, f.what.clone(), f.case.clone()))).collect();
+    for f in o.fails {
+      *by_sig.entry(f.sig.unwrap_or("unexplained").to_string()).or_default() += 1;
+      rep.fail(f.sig, &f.what, f.case);
+    }
+    for (sig, k) in o.more {
+      *by_sig.entry(sig.unwrap_or("unexplained").to_string()).or_default() += k;
+      let w = first.iter().find(|x| x.0 == sig);
+      for _ in 0..k {
+        match w {
+          Some(w) if rep.violations() < 6 => rep.fail(sig, &w.1, w.2.clone()),
+          _ => rep.fail(sig, "(further case of the same class in the same corpus)", json!({})),
+        }
+      }
+    }
+    tot.evals += o.evals;
+    tot.worlds += o.worlds;
+    tot.nontrivial += o.nontrivial;
+    tot.layout_cmp += o.layout_cmp;
+    for i in 0..5 {
+      tot.t[i] += o.t[i];
+    }
+    for (k, v) in o.skipped {
+      *tot.skipped.entry(k).or_default() += v;
+    }
+    tot.outcomes.extend(o.outcomes);
+  };
+  for chunk in all.chunks(if quick { 32 } else { 128 }) {
     if rep.elapsed_s() > deadline {
       timed_out = true;
       break;
@@ -1665,35 +1805,13 @@ pub fn run(ctx: &Ctx) -> i32 {
     let outs: Vec<CorpusOut> = chunk.par_iter().map(|c| check_corpus(c, &queries, &tmpls, &cases, &parsed)).collect();
     done += chunk.len();
     for o in outs {
-      // further cases of a class repeat the class's stored witness (a replay file must be usable)
-      let first: Vec<(Option<&'static str>, String, Value)> = o.more.iter().filter_map(|(sig, _)| o.fails.iter().find(|f| f.sig == *sig).map(|f| (*sig, f.what.clone(), f.case.clone()))).collect();
-      for f in o.fails {
-        *by_sig.entry(f.sig.unwrap_or("unexplained").to_string()).or_default() += 1;
-        rep.fail(f.sig, &f.what, f.case);
-      }
-      for (sig, k) in o.more {
-        *by_sig.entry(sig.unwrap_or("unexplained").to_string()).or_default() += k;
-        let w = first.iter().find(|x| x.0 == sig);
-        for _ in 0..k {
-          match w {
-            Some(w) if rep.violations() < 6 => rep.fail(sig, &w.1, w.2.clone()),
-            _ => rep.fail(sig, "(further case of the same class in the same corpus)", json!({})),
-          }
-        }
-      }
-      tot.evals += o.evals;
-      tot.worlds += o.worlds;
-      tot.nontrivial += o.nontrivial;
-      tot.layout_cmp += o.layout_cmp;
-      for i in 0..5 {
-        tot.t[i] += o.t[i];
-      }
-      for (k, v) in o.skipped {
-        *tot.skipped.entry(k).or_default() += v;
-      }
-      tot.outcomes.extend(o.outcomes);
+      absorb(o);
     }
   }
+  for o in gap_outs {
+    absorb(o);
+  }
+  drop(absorb);
   rep.add_evals(tot.evals);
   rep.sample(json!({"corpus_shapes": all.get(all.len() / 2), "queries": queries.iter().map(|q| q.to_json()).collect::<Vec<_>>(), "agg_example": cases.last().map(|c| c.agg.clone())}));
   if tot.outcomes.len() < 2 {
@@ -1710,6 +1828,7 @@ pub fn run(ctx: &Ctx) -> i32 {
     "corpus_plan" => if quick { "len<=3 over 8 shapes, len 4 over 3" } else { "len<=3 over 10 shapes, len 4 over 8, len 5 over 5" },
     "queries" => queries.len(),
     "aggregation_trees" => cases.len(),
+    "gap_family" => json!({"worlds": gap_worlds_n, "evaluations": gap_evals, "document_lists": gap_plan.len(), "aggregation_trees": gap_cases.len(), "rule": "every ordered pair (thorough: also triple) of k-element subsets of a value grid (k = 3, 4; grid 5 quick / 6 thorough), one subset per segment, vs the single-segment layout; histogram over f64 and i64, date_histogram fixed and calendar, each with a stats sub-aggregation, also nested under terms / filter / range"}),
     "layout_equalities_checked" => tot.layout_cmp,
     "skipped_undocumented" => tot.skipped,
     "failure_classes" => by_sig,
